@@ -18,10 +18,15 @@ A unit file (verus/units/*.vunit) is a list of sections:
                              -- -> `lossy_string(X)`, a trusted wrapper whose body is that very expression)
   #gsubst <old> => <new> / #gsubst-re <regex> => <repl>   -- the same, applied to every #fn and #item that follows
   #attr <attribute>          -- a Verus attribute line placed above the function (e.g. #[verifier::loop_isolation(false)])
+  #block <signature> / #in <fn anchor> / #from <line> / #to <line>  -- a run of statements inside a long function is
+                             -- copied verbatim as the body of a function whose signature (the block's free variables
+                             -- with their types) is written in the unit; everything else as for #fn
   #deasync                   -- the function is an `async fn`: the `async` keyword and every `.await` are dropped, so the body
                              -- is read as the sequential code one task executes (awaited callees are opaque calls); what
                              -- this loses: interleaving with other tasks at the await points
-  #cut-after <stripped body line>  -- only the body up to and including that line is kept (open blocks are closed);
+  #tail <expr>               -- result expression of a cut function (e.g. `Ok(())`), placed where the dropped remainder began
+  #cut-after / #cut-before <stripped body line>  -- only the body up to and including / excluding that line is kept
+                             -- (open blocks are closed; a cut function returns its `Ok(())`-less prefix, see #tail);
                              -- used to put the first statements of a long async handler under contract
   #loop-invariant <stripped `while`/`for` line>   -- invariant/decreases clauses inserted between loop head and `{`
   #drop-macro <name> [<name>..]  -- statements `<name>!( .. );` (tracing macros) are removed from the body
@@ -181,8 +186,26 @@ def parse_unit(path):
                 cur_fn["deasync"] = True
             elif d == "cut-after":
                 cur_fn["cut_after"] = arg
+            elif d == "cut-before":
+                cur_fn["cut_before"] = arg
+            elif d == "tail":
+                cur_fn["tail"] = arg
             elif d == "scope":
                 cur_fn["scope"] = arg
+            elif d == "block":
+                # a run of statements inside a long function, put under contract as a function of its own:
+                # `#block <signature written in the unit>` + `#in <fn anchor>` + `#from <line>` + `#to <line>`
+                cur_fn = {"anchor": None, "block_sig": arg, "ret": None, "clauses": [], "hints": [], "loops": [],
+                          "source": unit["source"], "subst": list(gsub), "subst_re": list(gsub_re)}
+                unit["items"].append(("fn", cur_fn))
+            elif d == "in":
+                cur_fn["anchor"] = arg
+            elif d == "from":
+                cur_fn["block_from"] = arg
+            elif d == "to":
+                cur_fn["block_to"] = arg
+            elif d == "until":
+                cur_fn["block_until"] = arg
             elif d == "ret":
                 cur_fn["ret"] = arg
             elif d == "clauses":
@@ -255,6 +278,33 @@ def assemble(unit, repo):
                     raise LostAnchor("source %s is gone" % val["source"])
                 srcs[sp] = open(sp).read()
             sig, body, (a, b) = extract_fn(srcs[sp], val["anchor"], val.get("scope"))
+            block = None
+            if val.get("block_sig"):
+                bl = body.split("\n")
+                f = [k for k, l in enumerate(bl) if l.strip() == val["block_from"]]
+                if len(f) != 1:
+                    raise LostAnchor("block start %r matches %d lines in %s" % (val["block_from"], len(f), val["anchor"]))
+                if val.get("block_until"):
+                    t = [k - 1 for k, l in enumerate(bl) if k > f[0] and l.strip() == val["block_until"]]
+                    if not t:
+                        raise LostAnchor("block end %r not found after its start in %s" % (val["block_until"], val["anchor"]))
+                elif val.get("block_to"):
+                    t = [k for k, l in enumerate(bl) if k >= f[0] and l.strip() == val["block_to"]]
+                    if not t:
+                        raise LostAnchor("block end %r not found after its start in %s" % (val["block_to"], val["anchor"]))
+                else:
+                    # no #to: the block ends with the brace block opened by the first `{`-line at or after #from
+                    o = [k for k, l in enumerate(bl) if k >= f[0] and l.rstrip().endswith("{")]
+                    if not o:
+                        raise LostAnchor("no brace block after %r in %s" % (val["block_from"], val["anchor"]))
+                    rest = "\n".join(bl[o[0]:])
+                    end = _scan_to_matching_brace(rest, rest.index("{"))
+                    t = [o[0] + rest[:end].count("\n")]
+                off = a + len(sig) + sum(len(l) + 1 for l in bl[: f[0]])
+                text = "\n".join(bl[f[0]: t[0] + 1])
+                block = {"in": val["anchor"], "from": val["block_from"], "to": val.get("block_to") or ("(up to) " + val["block_until"] if val.get("block_until") else "(closing brace of the first block)"), "lines": t[0] - f[0] + 1}
+                a, b = off, off + len(text)
+                sig, body = val["block_sig"] + " ", "{\n" + text + "\n" + val.get("tail", "") + "\n}"
             real_sha = hashlib.sha256(srcs[sp][a:b].encode()).hexdigest()
             # (1) signature rewrite
             sig_s = sig.rstrip()
@@ -269,16 +319,20 @@ def assemble(unit, repo):
                 sig_v, n1 = re.subn(r"\basync fn\b", "fn", sig_v)
                 body, n2 = re.subn(r"\s*\.await\b", "", body)
                 shape["deasync"] = {"async_keywords_dropped": n1, "awaits_dropped": n2}
-            if val.get("cut_after"):
+            if val.get("cut_after") or val.get("cut_before"):
                 bl = body.split("\n")
-                hits = [k for k, l in enumerate(bl) if l.strip() == val["cut_after"]]
+                cut = val.get("cut_after") or val.get("cut_before")
+                hits = [k for k, l in enumerate(bl) if l.strip() == cut]
                 if len(hits) != 1:
-                    raise LostAnchor("cut anchor %r matches %d lines in %s" % (val["cut_after"], len(hits), val["anchor"]))
+                    raise LostAnchor("cut anchor %r matches %d lines in %s" % (cut, len(hits), val["anchor"]))
+                if val.get("cut_before"):
+                    hits[0] -= 1
                 kept = "\n".join(bl[: hits[0] + 1])
                 stripped = re.sub(r'"(\\.|[^"\\])*"|//[^\n]*', "", kept)
                 depth = stripped.count("{") - stripped.count("}")
-                shape["cut_after"] = {"line": val["cut_after"], "body_lines_kept": hits[0] + 1, "body_lines_dropped": len(bl) - hits[0] - 1}
-                body = kept + "\n" + "}" * depth
+                shape["cut"] = {"after" if val.get("cut_after") else "before": cut, "body_lines_kept": hits[0] + 1, "body_lines_dropped": len(bl) - hits[0] - 1}
+                # `#tail <expr>`: the value a cut function returns where the dropped remainder would have continued
+                body = kept + "\n" + "}" * (depth - 1) + "\n" + val.get("tail", "") + "\n}"
             # (0) drop logging-macro statements (Verus does not expand tracing macros); each dropped
             #     statement is recorded in the extraction report
             dropped = []
@@ -329,9 +383,20 @@ def assemble(unit, repo):
                     continue
                 body_lines[hits[0]:hits[0]] = text
             pending = []
-            for anchor, text, nth in val["loops"]:
+            relocated = []
+            # every loop head of the body, in order (fallback when a quoted head no longer matches, e.g. because
+            # the loop guard itself was edited): if the unit annotates exactly as many loops as the body has,
+            # the k-th annotation goes to the k-th loop
+            heads = [k for k, l in enumerate(body_lines)
+                     if re.match(r"\s*(?:'\w+:\s*)?(while\b|for\b|loop\s*\{)", l) and l.rstrip().endswith("{")]
+            for idx, (anchor, text, nth) in enumerate(val["loops"]):
                 hits = [k for k, l in enumerate(body_lines) if l.strip() == anchor]
                 if (nth is None and len(hits) != 1) or (nth is not None and len(hits) < nth):
+                    if len(heads) == len(val["loops"]):
+                        pending.append((heads[idx], text))
+                        relocated.append("loop invariant written for %r placed on loop #%d %r in %s"
+                                         % (anchor, idx + 1, body_lines[heads[idx]].strip(), val["anchor"]))
+                        continue
                     lost.append("loop invariant at %r in %s" % (anchor, val["anchor"]))
                     continue
                 pending.append((hits[0] if nth is None else hits[nth - 1], text))
@@ -349,10 +414,13 @@ def assemble(unit, repo):
                 out.append(clauses)
             out.append("\n".join(body_lines))
             out.append("")
-            report.append({"function": val["anchor"], "source": val["source"],
+            if block:
+                shape["block"] = block
+            report.append({"function": val["anchor"] if not block else val["block_sig"], "source": val["source"],
                            "byte_range": [a, b], "sha256_real_text": real_sha,
                            "ghost_hints": len(val["hints"]), "loop_invariants": len(val["loops"]),
                            "dropped_macro_statements": dropped, "substitutions": substituted,
-                           "shape_changes": shape, "lost_ghost_anchors": lost})
+                           "shape_changes": shape, "relocated_ghost_anchors": relocated,
+                           "lost_ghost_anchors": lost})
     out += ["", "} // verus!", "fn main() {}", ""]
     return "\n".join(out), report
